@@ -373,4 +373,64 @@ def pluginLog {ρ ο ε : Type} (s : LState ρ ο ε) (id : Nat) : List Nat :=
 /-- the common order: request ids in the order their relays took place -/
 def order {ρ ο ε : Type} (s : LState ρ ο ε) : List (Done ρ ο ε) := s.log.reverse
 
+/-! ## Fine-grained view: the loop as single plugin calls under an explicit mutex
+
+The interleaving model above takes a whole relay as one step. Here the loop is split into its
+per-plugin calls and the mutex is an explicit field, with a switch `guard` to leave the
+`Lock()`/`Unlock()` out — to state what exactly the mutex buys (`Props/C06.lean`:
+`mutex_excludes`, `no_mutex_interleaves`). Every plugin is taken to be subscribed and to answer;
+only the order of handler invocations matters here. -/
+
+structure Walker where
+  tid : Tid
+  rid : Nat
+  todo : List Plugin          -- `range r.plugins` is evaluated once, when the loop starts
+  deriving DecidableEq, Repr
+
+structure FState where
+  plugins : List Plugin
+  lock : Option Tid           -- holder of the adaptation mutex
+  walkers : List Walker       -- callers inside their loop
+  stamps : List (Nat × Nat)   -- handler invocations (plugin identity, request id), latest first
+  deriving DecidableEq, Repr
+
+inductive FEv
+  | enter (t : Tid) (rid : Nat)   -- `r.Lock()` has returned (when guarded); the loop starts
+  | call (t : Tid)                -- the next per-plugin call of `t`'s loop
+  | leave (t : Tid)               -- loop finished; `r.Unlock()`
+  deriving DecidableEq, Repr
+
+def fstep? (guard : Bool) (s : FState) : FEv → Option FState
+  | .enter t rid =>
+    if (guard && s.lock.isSome) || s.walkers.any (·.tid == t) then none
+    else some { s with lock := some t, walkers := ⟨t, rid, s.plugins⟩ :: s.walkers }
+  | .call t =>
+    match s.walkers.find? (·.tid == t) with
+    | some w =>
+      match w.todo with
+      | p :: rest =>
+        some { s with walkers := ⟨t, w.rid, rest⟩ :: s.walkers.filter (·.tid != t),
+                      stamps := (p.id, w.rid) :: s.stamps }
+      | [] => none
+    | none => none
+  | .leave t =>
+    match s.walkers.find? (·.tid == t) with
+    | some w =>
+      if w.todo.isEmpty then
+        some { s with walkers := s.walkers.filter (·.tid != t), lock := none }
+      else none
+    | none => none
+
+def frun? (guard : Bool) : FState → List FEv → Option FState
+  | s, [] => some s
+  | s, e :: rest => match fstep? guard s e with
+    | none => none
+    | some s' => frun? guard s' rest
+
+def FState.start (ps : List Plugin) : FState := ⟨ps, none, [], []⟩
+
+/-- what plugin `id` sees: request ids in the order of its handler invocations -/
+def FState.seenBy (s : FState) (id : Nat) : List Nat :=
+  (s.stamps.reverse.filter (·.1 == id)).map (·.2)
+
 end Nri.Dispatch
